@@ -295,6 +295,17 @@ def build_extracted(driver_ml, out_name=None, modname=None, extract_v=None):
     gen = os.path.join(EXTRACT, "gen")
     os.makedirs(gen, exist_ok=True)
     exe = os.path.join(gen, out_name)
+    # the modules the extraction file imports must be compiled against the CURRENT sources (a check builds only its own
+    # Properties file; another module imported here may be stale after a source or translator change: "inconsistent assumptions")
+    mods = []
+    for line in open(os.path.join(EXTRACT, extract_v)):
+        m = re.match(r"\s*From PS Require (?:Import|Export)\s+(.*?)\.\s*$", line)
+        if m:
+            mods += m.group(1).split()
+    if mods:
+        ok, log = coq_build(mods)
+        if not ok:
+            raise BuildError("model modules of %s do not compile\n%s" % (extract_v, log[-3000:]))
     deps = [os.path.join(EXTRACT, extract_v), os.path.join(EXTRACT, driver_ml)] + \
            [os.path.join(COQDIR, "theories", f) for f in os.listdir(os.path.join(COQDIR, "theories")) if f.endswith(".vo")]
     stamp = os.path.join(gen, out_name + ".stamp")
